@@ -1,6 +1,7 @@
 //! tsim — deterministic simulator with fault injection for tsrun (see /verif/DESIGN.md).
 
 mod capi;
+mod corpus;
 mod framework;
 mod host;
 mod proggen;
@@ -48,7 +49,8 @@ fn check(id: &str, tier: Tier) -> i32 {
         }
         "C19" => {
             let n = ctx.runs(10_000, 300_000);
-            run_check(&props::c19::C19, &ctx, &[("programs", n)], |_, _, _| Vec::new()).exit
+            let nc = ctx.runs(2_500, 25_000);
+            run_check(&props::c19::C19, &ctx, &[("programs", n), ("corpus", nc)], |_, _, _| Vec::new()).exit
         }
         "C09" => {
             let n = ctx.runs(12_000, 300_000);
@@ -62,7 +64,8 @@ fn check(id: &str, tier: Tier) -> i32 {
             let n = ctx.runs(3_000, 200_000);
             let np = match tier { Tier::Quick => 300usize, Tier::Thorough => 3000 };
             let seed = ctx.seed;
-            run_check(&props::c12::C12, &ctx, &[("scenarios", n)], move |cov, _assume, _xs| {
+            let nc = ctx.runs(1_300, 25_000);
+            run_check(&props::c12::C12, &ctx, &[("scenarios", n), ("corpus", nc)], move |cov, _assume, _xs| {
                 // (d) process restarts: same seeds in fresh processes, ASLR on, heap shifted
                 let exe = std::env::current_exe().unwrap_or_default();
                 let mut outs: Vec<String> = Vec::new();
@@ -102,7 +105,8 @@ fn check(id: &str, tier: Tier) -> i32 {
         }
         "C14" => {
             let n = ctx.runs(12_000, 300_000);
-            run_check(&props::c14::C14, &ctx, &[("programs", n)], |_, _, _| Vec::new()).exit
+            let nc = ctx.runs(2_200, 20_000);
+            run_check(&props::c14::C14, &ctx, &[("programs", n), ("corpus", nc)], |_, _, _| Vec::new()).exit
         }
         "C11" => {
             let n = ctx.runs(4_000, 60_000);
@@ -114,7 +118,8 @@ fn check(id: &str, tier: Tier) -> i32 {
         }
         "C02" => {
             let n = ctx.runs(12_000, 400_000);
-            run_check(&props::c02::C02, &ctx, &[("programs", n)], |_, _, _| Vec::new()).exit
+            let nc = ctx.runs(2_500, 25_000);
+            run_check(&props::c02::C02, &ctx, &[("programs", n), ("corpus", nc)], |_, _, _| Vec::new()).exit
         }
         _ => {
             eprintln!("HARNESS-ERROR: unknown or not-applicable property {}", id);
@@ -189,6 +194,26 @@ fn main() {
             println!("// console: {:?}", out.console);
             println!("// traffic: {:?}", out.traffic);
             println!("// answers: {:?}", case.answers);
+            0
+        }
+        Some("run-src") => {
+            // debug: run a source file with the simulated host (default answers), print what the host saw
+            let f = args.get(2).cloned().unwrap_or_default();
+            let thr: u32 = args.get(3).and_then(|s| s.parse().ok()).unwrap_or(0);
+            let path = args.get(4).cloned();
+            let src = std::fs::read_to_string(&f).unwrap_or_default();
+            let spec = host::RunSpec {
+                source: src, path, modules: Default::default(), answers: Default::default(), driver: host::Driver::Step,
+                gc: host::GcSched { force_at_suspend: true, ..host::GcSched::threshold(thr) },
+                tape: rng::Tape::from_vec(vec![]), fuel: 3_000_000, clock_start: 0, random_seed: 1, withhold_imports: false, linked_promises: false,
+                host_activity_pm: 0, internal_sources: Default::default(),
+            };
+            let out = host::run_solo(&spec);
+            println!("result: {}", out.result);
+            println!("console: {:?}", out.console);
+            println!("traffic: {:?}", out.traffic);
+            println!("live_at_suspend: {:?}", out.live_at_suspend);
+            println!("exports: {:?} steps={} stale={:?}", out.exports, out.steps, out.stale);
             0
         }
         Some("matrix-probe") => {
@@ -300,14 +325,14 @@ fn main() {
             let mut r = rng::Rng::new(rng::derive(ctx.seed, sid, idx));
             use framework::Check;
             let v = match id.as_str() {
-                "C02" => serde_json::to_value(props::c02::C02.generate(&mut r, idx as usize, Tier::Quick)).ok(),
-                "C07" => serde_json::to_value(props::c07::C07.generate(&mut r, idx as usize, Tier::Quick)).ok(),
-                "C08" => serde_json::to_value(props::c08::C08.generate(&mut r, idx as usize, Tier::Quick)).ok(),
-                "C09" => serde_json::to_value(props::c09::C09.generate(&mut r, idx as usize, Tier::Quick)).ok(),
-                "C19" => serde_json::to_value(props::c19::C19.generate(&mut r, idx as usize, Tier::Quick)).ok(),
-                "C11" => serde_json::to_value(props::c11::C11.generate(&mut r, idx as usize, Tier::Quick)).ok(),
-                "C12" => serde_json::to_value(props::c12::C12.generate(&mut r, idx as usize, Tier::Quick)).ok(),
-                "C14" => serde_json::to_value(props::c14::C14.generate(&mut r, idx as usize, Tier::Quick)).ok(),
+                "C02" => serde_json::to_value(props::c02::C02.generate_stream(&stream, &mut r, idx as usize, Tier::Quick)).ok(),
+                "C07" => serde_json::to_value(props::c07::C07.generate_stream(&stream, &mut r, idx as usize, Tier::Quick)).ok(),
+                "C08" => serde_json::to_value(props::c08::C08.generate_stream(&stream, &mut r, idx as usize, Tier::Quick)).ok(),
+                "C09" => serde_json::to_value(props::c09::C09.generate_stream(&stream, &mut r, idx as usize, Tier::Quick)).ok(),
+                "C19" => serde_json::to_value(props::c19::C19.generate_stream(&stream, &mut r, idx as usize, Tier::Quick)).ok(),
+                "C11" => serde_json::to_value(props::c11::C11.generate_stream(&stream, &mut r, idx as usize, Tier::Quick)).ok(),
+                "C12" => serde_json::to_value(props::c12::C12.generate_stream(&stream, &mut r, idx as usize, Tier::Quick)).ok(),
+                "C14" => serde_json::to_value(props::c14::C14.generate_stream(&stream, &mut r, idx as usize, Tier::Quick)).ok(),
                 _ => None,
             };
             let rf = framework::ReplayFile { property: id.clone(), clause: "dump".into(), observed: String::new(), seed: ctx.seed, run: idx, scenario: v.unwrap_or_default(), detail: Default::default(), minimised_steps: 0 };
